@@ -285,7 +285,7 @@ func (ex *Explorer) record(w *Worker, r *PathResult) {
 	defer ex.mu.Unlock()
 	ex.finished++
 	if traceOn {
-		fmt.Fprintf(os.Stderr, "[path %d] %s dec=%d steps=%d viol=%d vec=%v %s\n", ex.finished, r.Outcome, r.Decisions, r.Steps, len(r.Violations), r.Vector, r.Msg)
+		fmt.Fprintf(os.Stderr, "[path %d] %s dec=%d steps=%d viol=%d vec=%v %s dig=%v\n", ex.finished, r.Outcome, r.Decisions, r.Steps, len(r.Violations), r.Vector, r.Msg, r.Digest)
 	}
 	for _, c := range r.Covers {
 		ex.Covers[c]++
